@@ -15,8 +15,11 @@ OUTCOMES = ["connect_fail", "rejected", "drop_before_ready", "drop_after_ready",
             # [min_wait, max_wait] whatever the server says)
             "rejected_retry_after_120", "rejected_retry_after_1", "rejected_redirect", "closed_try_again_later",
             # the server closes and then keeps the TCP connection open for ever: only the client's close timeout ends this
-            "server_close_then_lingers"]
-REACHES_READY = {"drop_after_ready", "graceful_close", "protocol_error", "unresponsive", "ready_then_messages",
+            "server_close_then_lingers",
+            # the peer is gone by the time the client writes anything after its upgrade request (a write of the
+            # application - wherever it comes - or of the library fails for good / times out); otherwise as drop_after_ready
+            "later_writes_fail", "later_write_times_out"]
+REACHES_READY = {"later_writes_fail", "later_write_times_out","drop_after_ready", "graceful_close", "protocol_error", "unresponsive", "ready_then_messages",
                  "closed_try_again_later", "server_close_then_lingers"}
 REJECTIONS = {
     "rejected": (403, "No", []),
@@ -84,7 +87,7 @@ def fake_events(outcome):
     if outcome == "drop_before_ready":
         return [events.Connecting(url), events.Connected(url), events.Disconnected("lost")]
     head = [events.Connecting(url), events.Connected(url), events.Ready(None, None, set()), events.Poll()]
-    if outcome == "drop_after_ready":
+    if outcome in ("drop_after_ready", "later_writes_fail", "later_write_times_out"):
         return head + [events.Disconnected("lost")]
     if outcome == "graceful_close":
         return head + [events.Closing(1000, ""), events.Disconnected(graceful=True)]
@@ -114,6 +117,9 @@ def attempt_script(outcome):
         return {"script": [["wait_request"], ["stream", [["bytes", b"HTTP/1.1 101 Swi"]], "whole", 0.0], ["reset", 0.0]]}
     if outcome == "drop_after_ready":
         return {"script": [["wait_request"], ["stream", [["reply", None]], "whole", 0.0], ["eof", 0.5]]}
+    if outcome in ("later_writes_fail", "later_write_times_out"):
+        return {"script": [["wait_request"], ["stream", [["reply", None]], "whole", 0.0], ["eof", 0.5]],
+                "faults": {"send": {"1": "pipe" if outcome == "later_writes_fail" else "timeout"}}}
     if outcome == "graceful_close":
         return {"script": [["wait_request"], ["stream", [["reply", None], ["bytes", B(wire.CLOSE, struct.pack("!H", 1001))]],
                                               "whole", 0.0], ["eof", 0.5]]}
